@@ -226,11 +226,10 @@ def run(ctx):
 
     # ---- leg B: random registries ------------------------------------------------------------------
     items = []
-    for k in range(ctx.pick(5000, 200000)):
+    for k in range(ctx.pick(5000, 120000)):
         regs = [{'cls': rng.choice(H.ALL_CLASSES), 'beh': rng.choice(ALL_BEHS)} for _ in range(rng.randint(0, 6))]
         trace, case, rec, res, got = H.random_trace(rng, asgi=bool(k & 1), ncomp=rng.randint(0, 3), maxhooks=1, regs=regs,
                                                     classes=H.ALL_CLASSES, maxfaults=3, render_p=0.15, rich=True)
-        b = {'reg': [{}] * 3 + regs, 'calls': rec.calls}
         ctx.case(case, nontrivial=H.nontrivial_c04({'reg': regs, 'calls': rec.calls}), key=digest(trace))
         if rec.wrong or res.errors:
             ctx.violation('P4:protocol', case, 'harness anomaly %r / protocol errors %r' % (rec.wrong, res.errors))
@@ -246,7 +245,7 @@ def run(ctx):
     traces, cases = [], []
     tag = {'t': 'application', 's': 'x-verif-tag'}
     axml = {'t': 'application', 's': 'xml'}
-    for k in range(ctx.pick(2500, 60000)):
+    for k in range(ctx.pick(2500, 40000)):
         cell = {'acc': random_accept(rng), 'xmlOn': rng.random() < 0.7, 'extra': rng.choice([[], [tag], [axml], [tag, axml]]),
                 'err': {'status': 422, 'desc': rng.random() < 0.5, 'code': rng.random() < 0.5, 'link': rng.random() < 0.5},
                 'out': {'status': 422, 'kind': '?', 'ctype': {'t': '', 's': ''}, 'fields': []}}
